@@ -78,6 +78,13 @@ func init() {
 	libModels["math/bits.Add64"] = func(tr *FnTr, x ssa.Value, args []Val, cc *ssa.CallCommon) Val {
 		tr.usedModel("math/bits.Add64")
 		s := tr.vc.Def("add64", Add(args[0].L[0], args[1].L[0], args[2].L[0]))
+		if tr.top.ct != nil && tr.top.ct.NoOverflow && carryDiscarded(x) {
+			// the carry-out is thrown away: it must be zero
+			ok := Lt(s, Pow2(64))
+			tr.vc.Oblige(tr.prefix+"nooverflow", "", Implies(tr.st.Reach, ok), tr.pos(posOf(x)))
+			tr.st.Reach = tr.vc.Def("reach", And(tr.st.Reach, ok))
+			return Val{L: []*Term{s, Int(0)}}
+		}
 		// carry-in > 1 is undefined behaviour per the documentation; the real code returns
 		// a wrapped sum, which is what mod/div give.
 		sum := tr.vc.Def("add64_sum", Mod(s, Pow2(64)))
@@ -165,4 +172,27 @@ func (tr *FnTr) bytesEqual(a, b Val) *Term {
 	same := Forall([]*Term{j}, Implies(And(Le(Int(0), j), Lt(j, a.L[2])), Eq(Select(aa, Add(a.L[1], j)), Select(ba, Add(b.L[1], j)))))
 	tr.vc.Assume(Eq(r, And(Eq(a.L[2], b.L[2]), same)))
 	return r
+}
+
+// carryDiscarded: the second result of the call is never used.
+func carryDiscarded(x ssa.Value) bool {
+	if x == nil {
+		return false
+	}
+	refs := x.Referrers()
+	if refs == nil {
+		return false
+	}
+	for _, r := range *refs {
+		if ex, ok := r.(*ssa.Extract); ok && ex.Index == 1 {
+			if rr := ex.Referrers(); rr != nil {
+				for _, u := range *rr {
+					if _, dbg := u.(*ssa.DebugRef); !dbg {
+						return false
+					}
+				}
+			}
+		}
+	}
+	return true
 }
